@@ -86,6 +86,19 @@ def gen_lines(ctx):
             L.append("srvh udp con %s %d" % (v, c))
             L.append("srvh udp non %s %d" % (v, c))
             L.append("srvh tcp non %s %d" % (v, c))
+    #  srvm: requests with RFC 8132 methods (FETCH 5, PATCH 6, iPATCH 7) and unassigned method codes - delivered to the handler
+    #        like the core methods, so No-Response applies in the same way
+    for mth in (1, 4, 5, 6, 7, 8, 31):
+        for v in ("-", "2", "8", "16", "26"):
+            for c in (69, 132, 160, 68):
+                L.append("srvm udp con %s %d %d" % (v, c, mth))
+                L.append("srvm udp non %s %d %d" % (v, c, mth))
+                L.append("srvm tcp non %s %d %d" % (v, c, mth))
+    #  srvnf: the path matches no route of the mux.Router: its own default handler answers 4.04, which a request may suppress
+    for v in ("-", "0", "2", "8", "10", "16", "24", "26", "127"):
+        L.append("srvnf udp con %s" % v)
+        L.append("srvnf udp non %s" % v)
+        L.append("srvnf tcp non %s" % v)
     #  srvn: a handler that calls SetResponse several times (a result, then an error path; a default, then the real outcome):
     #        every call is judged on its own, and the wire must carry the response of the last call that was not refused
     nc = [69, 65, 68, 95, 132, 128, 160, 165, 0, 1, 224]
@@ -105,6 +118,8 @@ def dl(l):
     f = l.split()
     if f[0] == "srvreal":
         return "srv udp %s %s %s" % (f[2], f[3], f[4])
+    if f[0] == "srvm":
+        return "srv %s %s %s %s" % (f[1], f[2], f[3], f[4])
     if f[0] in ("srvmux", "srvbw", "srvh"):
         return "srv %s %s %s %s" % (f[1], f[2], f[3], f[4])
     if f[0] == "srvmw":
@@ -132,7 +147,7 @@ def explore(ctx, art):
         if o.startswith("panic") or o == "bad-op":
             ctx.violations.append(common.Violation("no-crash", "C20:" + l, "%s -> %s" % (l, o), {"input": [l], "observed": o}))
             continue
-        if model is not None and model[i] != o:
+        if model is not None and model[i] != "n/a" and model[i] != o:
             ctx.broken.append(("correspondence", "C20 model vs implementation", "%s: impl `%s` model `%s`" % (l, o, model[i])))
         if judge is not None:
             j = judge[i]
